@@ -20,7 +20,7 @@ func init() { core.Register(c02{}) }
 func (c02) ID() string    { return "C02" }
 func (c02) Level() string { return "exploration" }
 func (c02) Rule() string {
-	return "all ordered triples (a,b,c) of a version pool (K=112 quick, 192 thorough: special equivalence-class mates, tilde chains, long digit runs, epochs, all strings of length<=1 over 019Aa~+-.: as upstream and revision, seeded random and near versions) checked for reflexivity, antisymmetry, transitivity and congruence of equal elements using only version.Compare; slices of 0..200 pool elements sorted with sort.Sort(version.Slice) from 3 shuffles. Non-trivial = triple with pairwise different texts, or slice with >=2 distinct elements; distinct by hash."
+	return "all ordered triples (a,b,c) of a version pool (K=144 quick, 224 thorough: special equivalence-class mates, tilde chains, long digit runs, epochs, all strings of length<=1 over 019Aa~+-.: as upstream and revision, seeded random and near versions) checked for reflexivity, antisymmetry, transitivity and congruence of equal elements using only version.Compare; slices of 0..200 pool elements sorted with sort.Sort(version.Slice) from 3 shuffles. Non-trivial = triple with pairwise different texts, or slice with >=2 distinct elements; distinct by hash."
 }
 func (c02) Assumptions() []string {
 	return []string{"no reference order is used: laws only", "sort.Sort from the Go standard library"}
@@ -70,6 +70,11 @@ var c02Specials = []string{
 	"1-9223372036854775808", "1-18446744073709551617", "1-1", "1-10", "1-100", "5", "50~rc1", "50", "2.4", "2.4-1", "2.4-3",
 	"2-1-1", "3-1", "2-1", "1-3-1", "2-0", "1-3-0", "2-1-0", "3-0", "1-2-3-4", "1-2", "3-4",
 	"9223372036854775807:1", "9223372036854775808:1", "18446744073709551615:1", "9223372036854775809:0",
+	// revisions that strconv would read as signed numbers; 20-digit components in the dotted-number shape;
+	// a colon in the upstream part meeting a digit or the end (round 4)
+	"1.0-+5", "1.0-5", "1.0-05", "1.0-+", "1.0-5.", "1.0-5+", "1.0-+05", "1.0-+5.",
+	"2-18446744073709551617", "2-1+b1", "2-1.0", "1.10000000000000000000a", "1.20000000000000000000", "1.1553255926290448384", "1.18446744073709551617", "1.1a",
+	"0:1a:", "0:1a", "0:1a5", "0:1a:-1", "0:1a5-1", "0:1a-1", "0:1:2-1", "0:1:", "0:1:5",
 	"1:0", "1:1.0", "2:0", "1.0a", "1.0A", "1.0.", "1.0+", "1.0~", "1.0-a", "1.0-+", "1.0-~", "1a1", "1a01", "1a~", "1aa",
 }
 
@@ -86,7 +91,7 @@ func c02Pool(tier string, seed uint64) []model.Ver {
 	for _, s := range c02Specials {
 		add(splitText(s))
 	}
-	K := tierN(tier, 112, 192)
+	K := tierN(tier, 144, 224)
 	if tier == "thorough" {
 		for _, s := range gen.AllStrings(gen.ClassAlphabet, 1) {
 			add(model.Ver{Upstream: s})
